@@ -514,6 +514,14 @@ class Sym:
     def item(self):
         return self
 
+    def __getitem__(self, idx):
+        # numpy 0-d arrays / scalars accept  x[...], x[()], x[..., None]
+        from gvc.snp import wrap
+
+        a = np.empty((), dtype=object)
+        a[()] = self
+        return wrap(a[idx])
+
     # -- comparisons -------------------------------------------------------------------------
     def __eq__(self, o):  # type: ignore[override]
         if isinstance(o, np.ndarray) and o.ndim > 0:
@@ -921,6 +929,37 @@ def _prim(p):
     return p
 
 
+def _strip_positive_content(n):
+    """divide a polynomial by the largest monomial in strictly positive generators (kinds pos / scale) common to all its
+    terms: neither zero-ness nor sign changes"""
+    R = cur()
+    if not R.meta or not n:
+        return n
+    pos = [k for k, m in R.meta.items() if m.get("kind") in ("pos", "scale")]
+    if not pos:
+        return n
+    mins = {}
+    for k in pos:
+        mn = None
+        for m in n:
+            e = m[k]
+            if mn is None or e < mn:
+                mn = e
+            if mn == 0:
+                break
+        if mn:
+            mins[k] = mn
+    if not mins:
+        return n
+    out = {}
+    for m, c in n.items():
+        mm = list(m)
+        for k, e in mins.items():
+            mm[k] -= e
+        out[tuple(mm)] = c
+    return n.ring.from_dict(out)
+
+
 def mk_eq0(s):
     s = Sym.const(s) if not isinstance(s, Sym) else s
     if s.special:
@@ -937,6 +976,9 @@ def mk_eq0(s):
     if cur().mode == "real" and _has_i(n):
         re, im = _split_ri(n)
         return band(mk_eq0(Sym(re, s.d.ring.one)), mk_eq0(Sym(im, s.d.ring.one)))
+    n = _strip_positive_content(n)
+    if n.is_ground:
+        return FALSE if n else TRUE
     if not _has_i(n):
         if _lane_rule_refutes(n):
             return FALSE
@@ -993,6 +1035,10 @@ def mk_cmp(op, s):
             r, i = s.const_value()
             if i == 0:
                 return TRUE if (r < 0 if op == "lt" else r <= 0) else FALSE
+        if type(s) is Sym and _is_positive_monomial(s):
+            return FALSE
+        if type(s) is Sym and _is_positive_monomial(-s):
+            return TRUE
         raise EngineGap("order comparison in field mode")
     s = apply_relations(s)
     if _has_i(s.n):
@@ -1003,8 +1049,15 @@ def mk_cmp(op, s):
         r, _ = s.const_value()
         return TRUE if (r < 0 if op == "lt" else r <= 0) else FALSE
     n, d = s.n, s.d
+    n = _strip_positive_content(n)
+    d = _strip_positive_content(d)
+    if n.is_ground and d.is_ground:
+        v = Fraction(int(n.LC) if n else 0, int(d.LC))
+        return TRUE if (v < 0 if op == "lt" else v <= 0) else FALSE
     if d.is_ground:
         # d > 0 by normalisation
+        if d.LC < 0:
+            n, d = -n, -d
         c = n.content()
         if c < 0:
             c = -c
@@ -1146,9 +1199,25 @@ def _div_nocheck(a, b):
     return a * b._inv()
 
 
+def _is_positive_monomial(s):
+    """s = c * product of generators known to be positive (kinds pos / scale), c > 0"""
+    R = cur()
+    if not (s.d.is_ground and len(s.n) == 1):
+        return False
+    (m, c), = s.n.items()
+    if c <= 0 or m[0]:
+        return False
+    for k, e in enumerate(m):
+        if e and R.meta.get(k, {}).get("kind") not in ("pos", "scale"):
+            return False
+    return True
+
+
 def sym_abs(s):
     R = cur()
     if s.special:
+        return s
+    if type(s) is Sym and not s.is_const() and _is_positive_monomial(s):
         return s
     if s.is_const():
         r, i = s.const_value()
